@@ -74,6 +74,10 @@ def cases(tier: str, seed: int) -> list[dict]:
         for et in ["TRI3", "QUAD9", "TETRA10", "PRISM6", "SEG3", "TRI10"]:
             out.append({"case": "renumber", "kind": "thermal" if et in ("SEG3", "QUAD9") else "elastic", "et": et,
                         "dim": 1 if et.startswith("SEG") else (2 if et in gm.ET_2D else 3)})
+    # the stand-alone assembly of user forms (BiLinearForm / LinearForm .Assemble), which does not go through _Simu.Assembly
+    for et in ["TRI3", "QUAD4", "TETRA4", "TRI6"]:
+        for dof_n in (1, 2):
+            out.append({"case": "forms", "et": et, "dof_n": dof_n, "dim": 2 if et in gm.ET_2D else 3})
     # one large system (Ndof^2 > 2^31: linear (row, col) indices no longer fit 32-bit integers)
     out.append({"case": "large", "et": "QUAD4", "dof_n": 2, "nx": 156})
     if tier == "thorough":
@@ -105,7 +109,60 @@ def run_case(case: dict, ctx: Ctx) -> None:
     if case.get("fam") == "suite":
         return _suite.run_suite(case, ctx, PROP)
     rng = np.random.default_rng([case["seed"], NUM, case["index"]])
-    {"real": run_real, "probe": run_probe, "renumber": run_renumber, "large": run_large}[case["case"]](case, ctx, rng)
+    {"real": run_real, "probe": run_probe, "renumber": run_renumber, "large": run_large, "forms": run_forms}[case["case"]](case, ctx, rng)
+
+
+def run_forms(case, ctx, rng):
+    """form.Assemble(field) places the element arrays form.Integrate_e(field) returns at the rows (test function) and columns
+    (trial function) of the connectivity: compared with the dense explicit scatter-add, for forms that are not symmetric."""
+    from EasyFEA.FEM import BiLinearForm, Field, LinearForm
+
+    et, dof_n, dim = case["et"], case["dof_n"], case["dim"]
+    key = f"C03/forms/dof_n={dof_n}"
+    ctx.default_key = key
+    with ctx.monitored("no-exception", key + "/mesh/raised"):
+        with quiet():
+            mesh, _ = _sims.small_mesh(rng, dim, et, size=1.6)
+    g = mesh.Get_list_groupElem(dim)[0]
+    if len(mesh.Get_list_groupElem(dim)) > 1:
+        ctx.event("multi-group-mesh-skipped")
+        ctx.describe(f"forms/{et}/{dof_n}", False)
+        return
+    bvec = rng.uniform(0.5, 2, dim)
+    A = rng.normal(size=(dim, dim)) + 2 * np.eye(dim)
+    if dof_n == 1:
+        forms = {"advection": lambda u, v: (u.grad.dot(bvec)) * v, "nonsym-diffusion": lambda u, v: (A @ u.grad).dot(v.grad) + 0.3 * u * v}
+        lin = {"source": lambda v: 1.7 * v}
+    else:
+        forms = {"vector-advection": lambda u, v: (u.grad @ bvec[:dof_n] if dim == dof_n else u.grad @ bvec).dot(v),
+                 "mass+advection": lambda u, v: u.dot(v) + (u.grad @ bvec).dot(v)}
+        fv = rng.uniform(-1, 1, dof_n)
+        lin = {"source": lambda v: v.dot(fv)}
+    field = Field(g, dof_n)
+    Ndof = mesh.Nn * dof_n
+    n_ok = 0
+    for name, fn in forms.items():
+        F = BiLinearForm(fn)
+        with ctx.monitored("no-exception", f"{key}/{name}/raised"):
+            with quiet():
+                Ke = np.asarray(F.Integrate_e(field))
+                Aasm = F.Assemble(field)
+        want = scatter.scatter_matrix({g: Ke}, dof_n, Ndof)
+        got = Aasm.toarray() if Aasm.shape == (Ndof, Ndof) else np.full((Ndof, Ndof), np.nan)
+        asym = float(np.abs(want - want.T).max() / np.abs(want).max())
+        ctx.check("assembly-K", relerr(got, want, scale=np.abs(want).max()), TOL, f"{key}/{name}/Assemble", et=et, asymmetry_of_reference=asym)
+        ctx.event("form-reference-nonsymmetric" if asym > 1e-3 else "form-reference-symmetric")
+        n_ok += 1
+    for name, fn in lin.items():
+        F = LinearForm(fn)
+        with ctx.monitored("no-exception", f"{key}/{name}/raised"):
+            with quiet():
+                Fe = np.asarray(F.Integrate_e(field))
+                Fasm = F.Assemble(field)
+        want = scatter.scatter_vector({g: Fe.reshape(g.Ne, -1)}, dof_n, Ndof)
+        got = Fasm.toarray().ravel() if Fasm.shape == (Ndof, 1) else np.full(Ndof, np.nan)
+        ctx.check("assembly-F", relerr(got, want, scale=np.abs(want).max()), TOL, f"{key}/{name}/Assemble", et=et)
+    ctx.describe(f"forms/{et}/{dof_n}", n_ok > 0 and g.Ne >= 2, et=et, dof_n=dof_n, Ne=g.Ne)
 
 
 # ------------------------------------------------------------------------------------------
